@@ -10,15 +10,17 @@
      FlushLogger caller    call (first, or again after a return)                FlushCall   (visible)
                            syncCancel()                                         Request     (internal)
                            select { <-time.After(1s) | <-asyncDone.Done() }     FlushRet b  (visible; b = woken by asyncDone)
-     flusher (flushLog)    select { v := <-logQueue -> Write | default }        PollTake e / PollEmpty
+     flusher (flushLog)    select { v := <-logQueue | default }                 PollTake e / PollEmpty   (internal)
                            [verifYield()]                                        (no-op)
-                           select { v := <-logQueue -> Write | <-syncDone }     InnerTake e / InnerSync
-                           for { select { v := <-logQueue -> Write | default -> asyncCancel(); return } }
-                                                                                DrainTake e / DrainDone
+                           select { v := <-logQueue | <-syncDone }              InnerTake e / InnerSync  (internal)
+                           for { select { v := <-logQueue | default -> asyncCancel(); return } }
+                                                                                DrainTake e / DrainDone  (internal)
+                           v.writer.Write(v.value)   after each receive         Write e     (visible)
    Go's select picks any ready case: InnerTake and InnerSync may both be enabled; the label sequence is the
-   scheduler and is universally quantified in the theorems. [cap] is cap(logQueue). The writer's Write is
-   called with the whole buffer of one entry: a *Take label is one (undivided) Write of that entry on the
-   entry's own writer (the entry carries its writer, as logValue does).                                      *)
+   scheduler and is universally quantified in the theorems. [cap] is cap(logQueue). Between a receive and
+   the Write the flusher holds the entry (pcs HoldT / HoldD): it is neither queued nor written. The writer's
+   Write is called with the whole buffer of one entry: a Write label is one (undivided) Write of that entry
+   on the entry's own writer (the entry carries its writer, as logValue does).                              *)
 From Coq Require Import List NArith Bool.
 Import ListNotations.
 Open Scope N_scope.
@@ -28,7 +30,7 @@ Record entry := mkE { eg : N; en : N; ew : N }.
 Definition entry_eqb (a b : entry) : bool := (eg a =? eg b) && (en a =? en b) && (ew a =? ew b).
 
 Inductive lpc := LIdle | LSending (e : entry) | LSent (e : entry).
-Inductive fpc := Top | Inner | Drain | Done.
+Inductive fpc := Top | Inner | Drain | Done | HoldT (e : entry) | HoldD (e : entry).   (* HoldT: back to Top after the Write; HoldD: back to the drain loop *)
 (* FlushLogger caller: the first call (FCalled .. FReturned) and any later call (FLCalled .. FLReturned) *)
 Inductive flpc := FNone | FCalled | FRequested | FReturned (done : bool)
                 | FLCalled | FLRequested | FLReturned (done : bool).
@@ -36,7 +38,8 @@ Inductive flpc := FNone | FCalled | FRequested | FReturned (done : bool)
 Inductive label :=
 | LogCall (e : entry) | Enq (g : N) | LogRet (e : entry)
 | FlushCall | Request | FlushRet (done : bool)
-| PollTake (e : entry) | PollEmpty | InnerTake (e : entry) | InnerSync | DrainTake (e : entry) | DrainDone.
+| PollTake (e : entry) | PollEmpty | InnerTake (e : entry) | InnerSync | DrainTake (e : entry) | DrainDone
+| Write (e : entry).
 
 Record st := mk {
   q : list entry;          (* logQueue's buffer *)
@@ -58,11 +61,12 @@ Definition upd {A} (f : N -> A) (g : N) (v : A) : N -> A := fun x => if x =? g t
 Definition init : st :=
   mk [] Top false FNone (fun _ => LIdle) (fun _ => 0) [] [] [] [] [].
 
+(* a receive: the head of the queue becomes the held entry *)
 Definition take (s : st) (e : entry) (at_pc next : fpc) : option st :=
   match fp s, q s with
   | p, e' :: r =>
       if match p, at_pc with Top, Top | Inner, Inner | Drain, Drain => true | _, _ => false end && entry_eqb e e'
-      then Some (mk r next (req s) (fl s) (lp s) (cnt s) (hist s) (written s ++ [e']) (retd s) (pre_call s) (pre_req s))
+      then Some (mk r next (req s) (fl s) (lp s) (cnt s) (hist s) (written s) (retd s) (pre_call s) (pre_req s))
       else None
   | _, [] => None
   end.
@@ -120,13 +124,13 @@ Definition gstep (drain : bool) (cap : N) (s : st) (l : label) : option st :=
           else None
       | _ => None
       end
-  | PollTake e => take s e Top Top
+  | PollTake e => take s e Top (HoldT e)
   | PollEmpty =>
       match fp s, q s with
       | Top, [] => Some (mk [] Inner (req s) (fl s) (lp s) (cnt s) (hist s) (written s) (retd s) (pre_call s) (pre_req s))
       | _, _ => None
       end
-  | InnerTake e => take s e Inner Top
+  | InnerTake e => take s e Inner (HoldT e)
   | InnerSync =>
       match fp s with
       | Inner => if req s
@@ -135,13 +139,28 @@ Definition gstep (drain : bool) (cap : N) (s : st) (l : label) : option st :=
                  else None
       | _ => None
       end
-  | DrainTake e => take s e Drain Drain
+  | DrainTake e => take s e Drain (HoldD e)
   | DrainDone =>
       match fp s, q s with
       | Drain, [] => Some (mk [] Done (req s) (fl s) (lp s) (cnt s) (hist s) (written s) (retd s) (pre_call s) (pre_req s))
       | _, _ => None
       end
+  | Write e =>
+      match fp s with
+      | HoldT e' => if entry_eqb e e'
+                    then Some (mk (q s) Top (req s) (fl s) (lp s) (cnt s) (hist s) (written s ++ [e']) (retd s) (pre_call s) (pre_req s))
+                    else None
+      | HoldD e' => if entry_eqb e e'
+                    then Some (mk (q s) Drain (req s) (fl s) (lp s) (cnt s) (hist s) (written s ++ [e']) (retd s) (pre_call s) (pre_req s))
+                    else None
+      | _ => None
+      end
   end.
+
+(* the entry the flusher has received and not yet written; what is submitted to the queue and not yet written *)
+Definition heldp (p : fpc) : list entry := match p with HoldT e | HoldD e => [e] | _ => [] end.
+Definition held (s : st) : list entry := heldp (fp s).
+Definition pend (s : st) : list entry := heldp (fp s) ++ q s.
 
 Definition step := gstep true.
 
@@ -154,9 +173,9 @@ Definition run := grun true.
 
 (* the flusher's own labels, and how many of them a schedule contains *)
 Definition flusher_label (l : label) : Prop :=
-  match l with PollTake _ | PollEmpty | InnerTake _ | InnerSync | DrainTake _ | DrainDone => True | _ => False end.
+  match l with PollTake _ | PollEmpty | InnerTake _ | InnerSync | DrainTake _ | DrainDone | Write _ => True | _ => False end.
 Definition is_flusher (l : label) : bool :=
-  match l with PollTake _ | PollEmpty | InnerTake _ | InnerSync | DrainTake _ | DrainDone => true | _ => false end.
+  match l with PollTake _ | PollEmpty | InnerTake _ | InnerSync | DrainTake _ | DrainDone | Write _ => true | _ => false end.
 Fixpoint flusher_steps (ls : list label) : nat :=
   match ls with [] => 0 | l :: r => (if is_flusher l then 1 else 0) + flusher_steps r end%nat.
 
@@ -168,10 +187,10 @@ Definition vis (l : label) : option event :=
   match l with
   | LogCall e => Some (ECall e)
   | LogRet e => Some (ERet e)
-  | PollTake e | InnerTake e | DrainTake e => Some (EWrite e)
+  | Write e => Some (EWrite e)
   | FlushCall => Some EFlushCall
   | FlushRet b => Some (EFlushRet b)
-  | Enq _ | Request | PollEmpty | InnerSync | DrainDone => None
+  | Enq _ | Request | PollTake _ | PollEmpty | InnerTake _ | InnerSync | DrainTake _ | DrainDone => None
   end.
 
 Fixpoint visible (ls : list label) : list event :=
@@ -184,7 +203,7 @@ Fixpoint visible (ls : list label) : list event :=
 Fixpoint writes_of (ls : list label) : list entry :=
   match ls with
   | [] => []
-  | (PollTake e | InnerTake e | DrainTake e) :: r => e :: writes_of r
+  | Write e :: r => e :: writes_of r
   | _ :: r => writes_of r
   end.
 Fixpoint rets_of (ls : list label) : list entry :=
